@@ -722,7 +722,10 @@ func (g *gctx) forStmt() []*Stmt {
 			}
 		}
 		s.Init = &Stmt{K: "decl", Name: i, E: lit(0)}
-		g.declare(vinfo{name: i, typ: "int", hdr: true})
+		// the variable of a 3-clause loop written directly in a generator is hoisted by go-co (shared between
+		// iterations): closures must not capture it there (design exclusion). Inside a plain closure the loop
+		// stays native, so capturing is allowed.
+		g.declare(vinfo{name: i, typ: "int", hdr: g.inGen})
 		s.E = &Expr{K: "cmp", Op: "<", L: &Expr{K: "var", Name: i}, R: bound}
 		s.Post = &Stmt{K: "incdec", Name: i, Op: "++"}
 		if g.inGen && g.pct(15, "yieldpost") {
